@@ -422,11 +422,13 @@ pub struct Ref<'a> {
     /// input fields read by the function being evaluated / by the last finished `run_fn`
     in_reads: Vec<usize>,
     last_reads: Vec<usize>,
+    in_untracked: bool,
+    last_untracked: bool,
 }
 
 impl<'a> Ref<'a> {
     pub fn new(env: Env<'a>) -> Self {
-        Ref { env, pushes: vec![], callees: vec![], occ: BTreeMap::new(), created: vec![], in_reads: vec![], last_reads: vec![] }
+        Ref { env, pushes: vec![], callees: vec![], occ: BTreeMap::new(), created: vec![], in_reads: vec![], last_reads: vec![], in_untracked: false, last_untracked: false }
     }
 
     /// identities (identity value, occurrence) of the structs a from-scratch run of node q creates
@@ -445,6 +447,7 @@ impl<'a> Ref<'a> {
     fn run_fn(&mut self, f: &FnId) -> (RV, Vec<u32>, Vec<FnId>) {
         let saved = (std::mem::take(&mut self.pushes), std::mem::take(&mut self.callees), std::mem::take(&mut self.occ));
         let saved_reads = std::mem::take(&mut self.in_reads);
+        let saved_untracked = std::mem::take(&mut self.in_untracked);
         let v = match f {
             FnId::Node(q) => {
                 let e = self.env.prog.nodes[*q].1.clone();
@@ -472,7 +475,14 @@ impl<'a> Ref<'a> {
         self.callees = saved.1;
         self.occ = saved.2;
         self.last_reads = std::mem::replace(&mut self.in_reads, saved_reads);
+        self.last_untracked = std::mem::replace(&mut self.in_untracked, saved_untracked);
         out
+    }
+
+    /// does a from-scratch run of node q itself perform an untracked read (of a cell)?
+    pub fn direct_untracked(&mut self, q: usize) -> bool {
+        self.run_fn(&FnId::Node(q));
+        self.last_untracked
     }
 
     /// direct dependencies of a from-scratch run of node q: (input fields read, nodes called)
@@ -516,7 +526,10 @@ impl<'a> Ref<'a> {
                 }
                 RV::num(self.env.inputs[*i])
             }
-            E::Cell(c) => RV::num(self.env.cells[*c]),
+            E::Cell(c) => {
+                self.in_untracked = true;
+                RV::num(self.env.cells[*c])
+            }
             E::Call(j) => self.call(FnId::Node(*j)),
             E::Add(a, b) => {
                 let x = self.eval(a, ctx);
